@@ -57,6 +57,12 @@ def library():
                                        Bin("+", V("n"), I(1))), ret="int"),
         "spawner_boom": Fn(["n"], Block([Expr(Spawn("spin")), Expr(Spawn("spin")), Expr(Spawn("spin")), Expr(Spawn("idle", V("n"))),
                                          Expr(Call("throw", S("boom")))])),
+        # threads which are joined for their results inside one host call: nothing of them (cores, joins) may stay behind
+        "sq": Fn(["n"], Block([], Bin("*", V("n"), V("n"))), ret="int"),
+        "par_sum": Fn(["n"], Block([Let("a", Spawn("sq", V("n"))), Let("b", Spawn("sq", Bin("+", V("n"), I(1))))],
+                                   Bin("+", MCall(V("b"), "join"), Bin("+", MCall(V("a"), "join"), MCall(V("a"), "join")))), ret="int"),
+        "par_in_loop": Fn(["n"], Block([Let("t", I(0)), For("i", Range(I(0), V("n")), Block([Let("h", Spawn("sq", V("i"))), Expr(Asg(V("t"), MCall(V("h"), "join"), "+="))]))],
+                                       V("t")), ret="int"),
         "main": Fn([], Block([])),
     }
     globs = [("counter", I(0)), ("glist", List(I(0))), ("gtext", S("abcdef")), ("grange", Range(I(0), I(9)))]
@@ -69,7 +75,7 @@ CALLS = [("add", [1, 2]), ("add", [-5, 5]), ("sub3", [10, 3, 2]), ("sub3", [1, 2
          ("div", [7, 0]), ("deep", [5]), ("mk_list", [3]), ("id_str", ["x y"]), ("is_pos", [1]), ("nullfn", []),
          ("glist_push", [7]), ("spawner_ok", [5]), ("spawner_boom", [3]),
          ("find_char", ["c"]), ("first_multiple", [3]), ("hex_value", ["a"]), ("count_until", ["d"]), ("find_throw", ["b"]), ("find_in_glist", [0]),
-         ("acc_parse", ["5"]), ("acc_parse", ["n/a"]), ("value_of", ["oops"])]
+         ("acc_parse", ["5"]), ("acc_parse", ["n/a"]), ("value_of", ["oops"]), ("par_sum", [3]), ("par_in_loop", [4])]
 
 
 def lit(v):
